@@ -129,6 +129,7 @@ fn projection(rt: &tokio::runtime::Runtime, inst: &Inst, c: &Cfg, tail: &mut Tra
     let mem = rt.block_on(async {
         let guid = ks.get_current_key_guid().await.map_err(|e| e.to_string());
         let value = ks.get_current_key_value().await.map_err(|e| e.to_string());
+        let incarnation = ks.get_current_key_incarnation().await.ok().flatten();
         let state = ks.get_current_secure_channel_state().await.map_err(|e| e.to_string());
         let rid = json!({
             "ws": ks.get_wireserver_rule_id().await.unwrap_or_else(|e| format!("ERR {}", e)),
@@ -143,6 +144,7 @@ fn projection(rt: &tokio::runtime::Runtime, inst: &Inst, c: &Cfg, tail: &mut Tra
         json!({
             "keyGuid": guid.clone().ok().flatten(),
             "keyValue": value.ok().flatten(),
+            "keyIncarnation": incarnation,
             "getterError": guid.err(),
             "state": state.unwrap_or_else(|e| format!("ERR {}", e)),
             "ruleId": rid,
